@@ -24,6 +24,7 @@ PROFILES = {
     'deco': lambda rnd: sp.gen_deco(rnd),
     'fixrec0': lambda rnd: sp.gen_fixrec0(rnd),
     'adaptive': lambda rnd: sp.gen_adaptive(rnd),
+    'dominoes': lambda rnd: sp.gen_dominoes(rnd),
     'bigloci': lambda rnd: sp.gen_bigloci(rnd),
     'bigloci_sto': lambda rnd: sp.gen_bigloci(rnd, 'sto'),
     'tuplelabels': lambda rnd: sp.gen_tuplelabels(rnd),
